@@ -124,7 +124,7 @@ def settle(run, drv, expected_by_case):
     """Compare driver answers `<impl list> | <spec list>` with the implementation streams."""
     import os as _os
     for (kind, case), req, out in drv.run():
-        if out.startswith("ERR"):
+        if out.startswith("ERR bad-"):
             if _os.environ.get("VERIF_DEV") and "bad-op" in out:
                 continue
             from harness.common import MachineryError
